@@ -13,6 +13,7 @@ ap.add_argument("--per-package", type=int, default=10)
 ap.add_argument("--workers", type=int, default=2)
 ap.add_argument("--seed", type=int, default=1)
 ap.add_argument("--packages", default="")
+ap.add_argument("--strings", action="store_true", help="string-literal mutants (one character appended) instead of operator mutants")
 ap.add_argument("--delete", action="store_true", help="statement-deletion mutants (assignments and call statements) instead of operator mutants")
 args = ap.parse_args()
 
@@ -54,6 +55,13 @@ def sites():
                 if st.startswith("//") or st.startswith("import") or st.startswith('"') or st.startswith("package") or not st:
                     continue
                 code = line.split("//")[0]
+                if args.strings:
+                    for m in re.finditer(r'"([A-Za-z][A-Za-z0-9+/\-_. ]{2,30})"', code):
+                        if "Errorf" in code or "errors.New" in code or "panic(" in code:
+                            continue
+                        new = code[:m.end() - 1] + "_" + code[m.end() - 1:] + line[len(code):]
+                        out.append({"pkg": pkg, "file": os.path.join(pkg, fn), "line": ln + 1, "old": st, "new": new.strip(), "_new": new})
+                    continue
                 if args.delete:
                     if re.match(r"^[A-Za-z_][\w\.\[\]\+\-\*]* (=|\+=|-=) .+[^{(,]$", st) or (re.match(r"^[A-Za-z_][\w\.]*\(.*\)$", st) and not st.startswith(("wg.", "panic(", "defer"))):
                         out.append({"pkg": pkg, "file": os.path.join(pkg, fn), "line": ln + 1, "old": st, "new": "(deleted)", "_new": ""})
